@@ -3,11 +3,13 @@ From Coq Require Import ZArith List.
 From Coba Require Import Common.Sx.
 From Coba Require C05.Run.
 From Coba Require C20.Run.
+From Coba Require C17.Run.
 Open Scope Z_scope.
 
 Definition dispatch (op : Z) (x : sx) : sx :=
   match op with
   | 5 => C05.Run.run x
   | 20 => C20.Run.run x
+  | 17 => C17.Run.run x
   | _ => err 98
   end.
